@@ -490,7 +490,9 @@ func run(c *core.Ctx) {
 	seed := c.Seed
 	pairMs, stressMs, episodes, clients, iters, conns := 70, 1500, 300, 12, 6, 6
 	procs := []int{2, 4, 16}
+	gateMs := 25
 	if c.Thorough() {
+		gateMs = 120
 		pairMs, stressMs, episodes, clients, iters, conns = 400, 20000, 1000, 24, 12, 12
 		procs = []int{1, 2, 3, 4, 8, 16}
 	}
@@ -532,7 +534,9 @@ func run(c *core.Ctx) {
 	if want("hist") {
 		// histories: half of the episodes focus on one conflicting pair of the model each
 		jobs = append(jobs, c17drv.Job{Phases: []string{"hist"}, Seed: seed, Procs: 4, Episodes: episodes / 2, Pairs: pairs},
-			c17drv.Job{Phases: []string{"hist"}, Seed: seed + 7777, Procs: 8, Yield: true, Episodes: episodes - episodes/2, Pairs: pairs})
+			c17drv.Job{Phases: []string{"hist"}, Seed: seed + 7777, Procs: 8, Yield: true, Episodes: episodes - episodes/2, Pairs: pairs},
+			// gated schedules: operation A held at its expiry check (hook VerifGate) while operation B runs
+			c17drv.Job{Phases: []string{"gated"}, Seed: seed + 99, Procs: 4, Pairs: pairs, PairMs: gateMs})
 	}
 	for i, p := range procs {
 		ps := pairs[:half]
@@ -553,9 +557,9 @@ func run(c *core.Ctx) {
 	var histwg sync.WaitGroup
 	nh := 0
 	if want("hist") {
-		nh = 2
+		nh = 3
 	}
-	histRuns := runChildren(c, jobs[:nh], 2)
+	histRuns := runChildren(c, jobs[:nh], 3)
 	for _, cr := range histRuns {
 		if cr.err == nil {
 			eps = append(eps, cr.res.Episodes...)
@@ -573,6 +577,7 @@ func run(c *core.Ctx) {
 	}
 	var cacheOps, handshakes, resumed, fresh, msgs, mgrHandshakes, mgrEncrypted, ccbReq, ccbRes, ccbHB int64
 	usedProcs := map[int]bool{}
+	gatedRuns, gatedHeld, gatedInside := 0, 0, 0
 	for _, cr := range runs {
 		if cr.err != nil {
 			c.Broken("stress child (phases %v): %v", cr.job.Phases, cr.err)
@@ -586,6 +591,9 @@ func run(c *core.Ctx) {
 		}
 		usedProcs[cr.res.Procs] = true
 		cacheOps += cr.res.CacheOps
+		gatedRuns += cr.res.GatedRuns
+		gatedHeld += cr.res.GatedHeld
+		gatedInside += cr.res.GatedInside
 		for k := range cr.res.PairOps {
 			c.Eval("pair/"+k+"/"+strconv.Itoa(cr.job.Procs), true)
 		}
@@ -654,6 +662,12 @@ func run(c *core.Ctx) {
 	}
 	c.Add("traces_validated_against_impl", int64(acc))
 	c.Set("history_events", nEv)
+	if want("hist") && gatedHeld == 0 {
+		c.Broken("gated schedules are vacuous: %d run, none held at the expiry-check gate (hook VerifGate missing?)", gatedRuns)
+	}
+	c.Set("gated_schedules", gatedRuns)
+	c.Set("gated_schedules_held_at_expiry_check", gatedHeld)
+	c.Set("gated_schedules_partner_returned_inside", gatedInside)
 	c.Set("cache_ops_under_race_detector", cacheOps)
 	c.Set("handshakes_sharing_one_config", handshakes)
 	c.Set("handshakes_resumed", resumed)
@@ -677,5 +691,5 @@ func run(c *core.Ctx) {
 	c.Set("gomaxprocs", pl)
 	c.Set("rule", "model: every interleaving of the critical-section steps of 3 goroutines x <=2 cache operations over 2 ids (TLC, invariants LocksetDiscipline, NoTornExpiry, NoLostInvalidate, RefinesSeq, Linearizable); "+
 		"binding: every conflicting operation pair of the model (generated by TLC) hammered on the real cache, plus seeded random stress, many clients sharing one SecurityConfig and one cache against one real server whose per-command policy hook returns one shared object (fresh and resuming; plus all-fresh concurrent handshakes), overlapping handshakes through one shared SecurityManager per side (sm.ServerHandshake / sm.ClientHandshake, encrypted echo), and simultaneous send/receive on established streams, all in race-enabled child processes at several GOMAXPROCS with injected yields; "+
-		"each distinct pair of racing cedar functions in the race log is one failure; evaluations = pair hammers + stress runs + network phases + recorded histories; every recorded call/return history (<= ~32 operations, <= 4 goroutines, quiescent post-condition reads included) is validated by TLC against the sequential cache specification as a linearizability search")
+		"each distinct pair of racing cedar functions in the race log is one failure; evaluations = pair hammers + stress runs + network phases + recorded histories; gated schedules (operation A held at its expiry check by the VerifGate hook while a conflicting operation B of the model runs: deterministic replay of the model interleavings that split lookup-and-evict); every recorded call/return history (<= ~32 operations, <= 4 goroutines, quiescent post-condition reads included) is validated by TLC against the sequential cache specification as a linearizability search")
 }
